@@ -328,6 +328,7 @@ def check(prop, tier, seed):
     judged_all = []
     tr_stats = []
     events = 0
+    eng_events = 0
     skipped = 0
     case_by_key = {}
     nchunks = (len(cases) + chunk - 1) // chunk
@@ -363,10 +364,15 @@ def check(prop, tier, seed):
                 raise ToolError("tvh (second process) run failed: %s" % p.stdout.decode(errors="replace")[-3000:])
             merge_ic(tpath, tpath2, tag="proc2", load_ev="load2", reverse=True)
         with open(tpath) as f:
+            eng_case = False
             for line in f:
                 events += 1
                 if '"ev":"skip"' in line:
                     skipped += 1
+                elif line.endswith('"ev":"case"}\n'):
+                    eng_case = '"eng":true' in line
+                elif eng_case and ('"ev":"match"' in line or '"ev":"tri"' in line):
+                    eng_events += 1
         # C. validate
         judged, st = run_trace(wd, tpath, "trace-%03d" % ci)
         tcs = trace_cases(tpath)
@@ -437,6 +443,8 @@ def check(prop, tier, seed):
             "cases_from_generators": len(cases) - n_tlc,
             "events_recorded": events,
             "cases_skipped_by_renderer": skipped,
+            "engine_model_events_checked": eng_events,
+            "engine_model_drift": other.get("model_drift", 0),
             "judged_total": len(judged_all),
             "judged_other_rules": other,
             "known_finding_hits": {k: len(v) for k, v in known_hits.items()},
